@@ -261,8 +261,10 @@ impl CanonicalDeserialize for Encoding {
             ark_serialize::Compress::No => unimplemented!(),
         }
         match validate {
-            ark_serialize::Validate::Yes => (),
-            ark_serialize::Validate::No => unimplemented!(),
+            // Decoding is the validity check, so it is performed in either
+            // mode. ark-serialize's containers (`Vec<T>`, ...) read every
+            // element with `Validate::No` and batch-check afterwards.
+            ark_serialize::Validate::Yes | ark_serialize::Validate::No => (),
         }
         let mut bytes = [0u8; 32];
         reader.read_exact(&mut bytes[..])?;
@@ -281,8 +283,10 @@ impl CanonicalDeserialize for Element {
             ark_serialize::Compress::No => unimplemented!(),
         }
         match validate {
-            ark_serialize::Validate::Yes => (),
-            ark_serialize::Validate::No => unimplemented!(),
+            // Decoding is the validity check, so it is performed in either
+            // mode. ark-serialize's containers (`Vec<T>`, ...) read every
+            // element with `Validate::No` and batch-check afterwards.
+            ark_serialize::Validate::Yes | ark_serialize::Validate::No => (),
         }
         let bytes = Encoding::deserialize_compressed(reader)?;
         bytes
